@@ -48,15 +48,19 @@ META = dict(
                 'Reconstruction of operands: create_vector copies dim entries (create_vector.bp, create_vector_fixed3.bp) provided dim <= 8; KNOWN FINDING: '
                 'for dim > 8 (output rank > 8 passed by the CUDA/HIP/SYCL kernels, pad_size = 2*rank > 8 in the OpenCL pad kernel) the static_vector refuses the '
                 'resize and the copy loop overruns the buffer (confirmed on the real code).',
-    not_covered=['get_function_composition / get_function_operands (C14, template plumbing)',
+    not_covered=['create_array(ptr, shape_ptr, dim): only the SHAPE of the rebuilt read-only operand is checked, bounded (dim 1..4 quick, 1..8 thorough; extents < 2^63), '
+                 'not its elements (reshape over a pointer ref: C03) and not the fixed-dimension kinds (DIM > 0)',
+                 'get_function_composition / get_function_operands (C14, template plumbing)',
                  'per-backend launch code (cuda/hip/sycl/opencl context.hpp: buffer allocation, copies, grid computation thread_size = ceil(size/warp)*warp)',
                  'concurrency itself: simultaneous execution, warps, memory model, atomics',
-                 'device_array / create_array / create_mutable_array object construction and the real mutable_flatten / flatten views (abstracted; index arithmetic '
+                 'device_array / create_mutable_array object construction and the real mutable_flatten / flatten views (abstracted; index arithmetic '
                  'is the subject of C01/C03/C20)',
                  'functional apply of the function composition on the device (fn::apply)',
                  '3-d launches (compute_offset uses only the x components; y/z are ignored by the code)'],
 )
 UNITS = [
+    Unit('create_array_shape4.bounded', 'c13', 'verif_create_array_shape4', mode='uf', unwind=10, unwind_loops={'.': 6}, plain=True, object_bits=12, timeout=1500, waive=[r'arithmetic overflow on (signed to unsigned|unsigned to signed) type conversion'], bounded='all loops unwound 6 times (dim <= 4)', clause='the operand rebuilt from (pointer, shape pointer, dim) has exactly the given extents in order'),
+    Unit('create_array_shape.bounded', 'c13', 'verif_create_array_shape', mode='uf', unwind=10, unwind_loops={'.': 10}, plain=True, tier='thorough', object_bits=12, timeout=1500, waive=[r'arithmetic overflow on (signed to unsigned|unsigned to signed) type conversion'], bounded='all loops unwound 10 times (dim <= 8)', clause='the operand rebuilt from (pointer, shape pointer, dim) has exactly the given extents in order'),
     Unit('compute_offset.uf', 'c13', 'verif_compute_offset', mode='uf',
          clause='global id of a thread = block * block_size + thread'),
     Unit('compute_offset.nowrap.bp', 'c13', 'verif_compute_offset_nowrap', mode='bp', uchecks=True,
